@@ -108,6 +108,12 @@ def handle : Handler
   | "c19.gnn", X :: rest => some <| Option.getD (do
       let ls ← layers? rest
       some (showRes (gnnForward ls (← mat? X)))) "bad-args"
+  | "c19.spec_gnn", X :: rest => some <| Option.getD (do
+      let O ← mat? (← rest.getLast?)
+      let ls ← layers? rest.dropLast
+      match Spec.gnnForward ls (← mat? X) with
+      | none => some "fails shapes-undefined"
+      | some want => some (verdict O want)) "bad-args"
   | "c19.act_out", [a, S] => some <| Option.getD (do
       some ("ok " ++ showMat (actOutput (← act? a) (← mat? S)))) "bad-args"
   | "c19.spec_act_out", [a, S, O] => some <| Option.getD (do
